@@ -210,13 +210,15 @@ func scribble(avps []*diam.AVP) bool {
 // byte-slice fields are bound to AVPs whose decoded values are views into the message body.
 type reusedStruct struct {
 	D struct { // names of dict.Default
-		HostIP net.IP `avp:"Host-IP-Address"`
-		Raw    []byte `avp:"Host-IP-Address"`
+		HostIP net.IP    `avp:"Host-IP-Address"`
+		Raw    []byte    `avp:"Host-IP-Address"`
+		AVP    *diam.AVP `avp:"Host-IP-Address"` // "the AVP itself": filled again for the next message
 	}
 	G struct { // names of the generated dictionaries
-		GenAddr []byte `avp:"B-Address"`
-		GenIPv4 net.IP `avp:"B-IPv4"`
-		GenIPv6 []byte `avp:"B-IPv6"`
+		GenAddr []byte    `avp:"B-Address"`
+		GenIPv4 net.IP    `avp:"B-IPv4"`
+		GenIPv6 []byte    `avp:"B-IPv6"`
+		GenAVP  *diam.AVP `avp:"B-Address"`
 	}
 }
 
